@@ -1,6 +1,7 @@
 package storecheck
 
 import (
+	"fmt"
 	"time"
 
 	"github.com/nuetzliches/hookaido/internal/queue"
@@ -75,4 +76,34 @@ func DirectedScenarios() []Directed {
 			enq("a"), adv(time.Second), deq(1, 5*time.Second), {Kind: KDequeue, Deq: &queue.DequeueRequest{Batch: 1, LeaseTTL: 5 * time.Second}, Forced: true, Pre: 40 * time.Second},
 			{Kind: KList, List: &queue.MessageListRequest{}}}},
 	}
+}
+
+// LongRefusalScript: a long history on a full drop_oldest queue in which every
+// accepted enqueue is followed by one that must be refused after the store has
+// already looked for victims - a duplicate of the newest id, a duplicate of the
+// oldest queued id, or a batch that cannot fit even with every queued message
+// evicted. Internal bookkeeping thresholds (order-list compaction, counters)
+// are crossed many times; each refusal must leave the queue exactly as it was
+// and the next accepted enqueue must again evict the oldest message.
+func LongRefusalScript(n, depth int) []Op {
+	var ops []Op
+	id := func(i int) string { return fmt.Sprintf("L%05d", i) }
+	for i := 0; i < n; i++ {
+		ops = append(ops, adv(time.Millisecond), enq(id(i)))
+		switch i % 3 {
+		case 0:
+			ops = append(ops, enq(id(i)))
+		case 1:
+			if i >= depth {
+				ops = append(ops, enq(id(i-depth+1)))
+			}
+		default:
+			var envs []queue.Envelope
+			for k := 0; k <= depth; k++ {
+				envs = append(envs, env(fmt.Sprintf("B%05d-%d", i, k), time.Time{}))
+			}
+			ops = append(ops, Op{Kind: KEnqueueBatch, Envs: envs})
+		}
+	}
+	return ops
 }
